@@ -204,6 +204,10 @@ SepFields(t) == LET fs == NumFields(t) IN {fs[i] : i \in 1..Len(fs)} \cup (IF t 
 Separable(rs) == \A t \in {"zdt", "dt", "date", "time", "dur", "ym", "md"} : \A f, g \in SepFields(t) :
                     f # g => \E i \in 1..Len(rs) : rs[i].t = t /\ SpecComputable(rs[i]) /\ FieldVal(t, rs[i].v, f) # FieldVal(t, rs[i].v, g)
 ASSUME Separable(QReceivers)
+\* every receiver type with numeric accessors has a primary receiver (DistinctFields is not vacuous)
+ASSUME \A t \in {"zdt", "dt", "date", "time", "dur", "ym", "md"} : \E i \in 1..Len(QReceivers) : QReceivers[i].t = t /\ QReceivers[i].primary
+\* model negative control: 2021-03-04T05:06:07.008009010 has day = day of week = 4 and second = days in week = 7
+BadReceivers == <<Rc("zdt", ZL(Date(2021, 3, 4), TimeRec(5, 6, 7, 8, 9, 10), 8009010, 0, "+00:00"), TRUE)>>
 ASSUME EnumTablesOK /\ TableOK
 ASSUME \A r \in Table : PrintT("ROW " \o ToJson([name |-> r.name, twin |-> r.twin, recv |-> r.recv, sig |-> r.sig, gen |-> TRUE, why |-> ""]))
 ASSUME \A r \in Excluded : PrintT("ROW " \o ToJson([name |-> r.name, twin |-> "", recv |-> "", sig |-> "", gen |-> FALSE, why |-> r.why]))
